@@ -279,6 +279,18 @@ class StmtMixin:
         else:
             self.exec_block(s.finalbody, st, fr)
 
+    def ex_With(self, s, st, fr):
+        """with <expr> [as name]: body -- the context manager's __exit__ is
+        taken to have no effect the contracts speak about (files: close)"""
+        for item in s.items:
+            v = self.ev(item.context_expr, st, fr)
+            if item.optional_vars is not None:
+                self.assign(item.optional_vars, v, st, fr)
+        self.uni.note_assumption(
+            "with-statements: __enter__ returns the object, __exit__ has no "
+            "modelled effect")
+        self.exec_block(s.body, st, fr)
+
     # -- loops ------------------------------------------------------------
     def loop_spec(self, node, fr):
         fn = getattr(fr, "fn_node", None)
@@ -443,10 +455,16 @@ class StmtMixin:
     def havoc_loop(self, s, st, fr, spec):
         names = assigned_names(s.body) if spec.assigns is None \
             else set(spec.assigns)
+        key = getattr(fr, "inline_key", None) or getattr(fr, "fn_key", None)
+        ltypes = self.uni.local_types.get(key, {})
         for name in names:
             if name in fr.env:
                 v = fr.env[name]
                 fr.env[name] = self.havoc_value(name, v, st)
+            elif name in ltypes:
+                # a local first assigned inside the loop: defined (with an
+                # arbitrary value) at the head of later iterations / exit
+                fr.env[name] = self.sym(name, ltypes[name], st)
         mods = spec.modifies
         if mods is None:
             mods = list(st.heap_sorts.keys())
